@@ -289,6 +289,108 @@ def run(ctx):
         for l in got:
             if l not in full:
                 ctx.fail('PauliPolynomial.reduce', 'a term appeared from nowhere', dict(terms=terms, string=l))
+    # reduce with a wide dynamic range and with explicit tolerances: the threshold is absolute (|c| <= tol), whatever the largest term
+    for _ in range(ctx.budget(60, 600)):
+        n = rng.choice([1, 2, 3])
+        strs_ = []
+        while len(strs_) < 3:
+            l_ = G.rand_op(rng, n)[0]
+            if l_ not in strs_:
+                strs_.append(l_)
+            if 4 ** n <= len(strs_):
+                break
+        big = rng.choice([2.0 ** 40, 2.0 ** 12, 2048.0, 1.0])
+        tolp = rng.choice([(1, 10000000000), (1, 1024), (1, 8)])
+        tolv = tolp[0] / tolp[1]
+        small = rng.choice([tolv * 4, tolv * 64, 1.5, 50.0, tolv / 4])
+        cs_ = [complex(big), complex(small) * rng.choice([1, 1j, -1]), complex(rng.choice([0.5, 3.0, tolv / 8]))][:len(strs_)]
+        terms = [((l_, rng.randrange(4)), c_) for l_, c_ in zip(strs_, cs_)]
+        try:
+            red = impl.poly(terms).reduce(tol=tolv) if tolp != (1, 10000000000) or rng.random() < 0.5 else impl.poly(terms).reduce()
+        except Exception as e:
+            ctx.fail('PauliPolynomial.reduce', 'implementation raised %r' % e, dict(terms=terms, tol=tolv)); continue
+        got = coefmap(red, impl)
+        ctx.drv.ask('P set rr poly %s' % E.epoly([O.to_g(t[0][0]) for t in terms], [t[0][1] for t in terms], [t[1] for t in terms]))
+        ans = ctx.drv.ask('P reduce rq rr %d %d' % tolp)
+        ctx.count('corr:reduce(tol)')
+        if model_coefmap(ans) != (('poly', got) if len(red.gs) else ('poly', {}, n)):
+            ctx.mismatch('reduce(tol)', str((terms, tolv))[:300], str(model_coefmap(ans))[:400], str(got)[:400])
+        ctx.case(('reduce-range', str(terms), tolv), True, sample=dict(op='reduce', tol=tolv, largest=big, kept=len(got)))
+        for (l_, k_), c_ in terms:
+            v_ = c_ * 1j ** k_
+            if abs(v_) > tolv * 2 and (l_ not in got or abs(got[l_] - v_) > 1e-9 * max(1, abs(v_))):
+                ctx.fail('PauliPolynomial.reduce', 'a term with |c| = %g above the tolerance %g was dropped (largest coefficient %g): the threshold is not absolute' % (abs(v_), tolv, big),
+                         dict(terms=terms, tol=tolv, string=l_, got=str(got.get(l_))))
+            if abs(v_) < tolv / 2 and l_ in got:
+                ctx.fail('PauliPolynomial.reduce', 'a term with |c| = %g below the tolerance %g was kept' % (abs(v_), tolv), dict(terms=terms, tol=tolv, string=l_))
+    # parts of a polynomial: slices, masks, index lists of polynomials that still carry phase indicators (unreduced products,
+    # polynomials rotated in place, signed lists cast to polynomials): the parts add up to the whole
+    for _ in range(ctx.budget(60, 600)):
+        n = rng.choice([1, 2, 3])
+        t1 = [(G.rand_op(rng, n), complex(rng.choice(COEF))) for _k in range(rng.randrange(1, 4))]
+        t2 = [(G.rand_op(rng, n), complex(rng.choice(COEF))) for _k in range(rng.randrange(1, 4))]
+        kind = rng.choice(['product', 'rotated', 'list'])
+        try:
+            if kind == 'product':
+                P_ = impl.poly(t1) @ impl.poly(t2)
+            elif kind == 'rotated':
+                P_ = impl.poly(t1 + t2).rotate_by(impl.pauli(G.rand_herm(rng, n, nonid=True)))
+            else:
+                P_ = impl.plist([t[0] for t in t1 + t2]).as_polynomial()
+            L_ = len(P_.cs)
+            k_ = rng.randrange(0, L_ + 1)
+            mk_ = np.array([rng.random() < 0.5 for _i in range(L_)])
+            idx_ = [rng.randrange(L_) for _i in range(rng.randrange(1, 4))]
+            whole = coefmap(P_, impl)
+            pieces = [('slice', [P_[:k_], P_[k_:]]), ('mask', [P_[mk_], P_[~mk_]])]
+            for nm_, parts in pieces:
+                tot = {}
+                for part in parts:
+                    for l_, v_ in coefmap(part, impl).items():
+                        tot[l_] = tot.get(l_, 0) + v_
+                tot = {l_: v_ for l_, v_ in tot.items() if abs(v_) > 1e-12}
+                if set(tot) != set(whole) or any(abs(tot[l_] - whole[l_]) > 1e-9 for l_ in tot):
+                    ctx.fail('PauliPolynomial.__getitem__', 'the two parts of a polynomial taken by %s do not add up to the polynomial (%s polynomial still carrying phase indicators %s)'
+                             % (nm_, kind, [int(v) for v in np.asarray(P_.ps)]), dict(kind=kind, t1=t1, t2=t2, how=nm_, k=k_, mask=mk_.tolist()))
+            sel = P_[idx_]
+            want_sel = {}
+            for i_ in idx_:
+                m_ = P_[i_]
+                l_, ph_ = O.from_gp(m_.g, m_.p)
+                want_sel[l_] = want_sel.get(l_, 0) + complex(m_.c) * 1j ** ph_
+            got_sel = {}
+            for g_, p_, c_ in zip(np.asarray(sel.gs), np.asarray(sel.ps), np.asarray(sel.cs)):
+                l_, ph_ = O.from_gp(g_, p_)
+                got_sel[l_] = got_sel.get(l_, 0) + complex(c_) * 1j ** ph_
+            if set(k for k, v in got_sel.items() if abs(v) > 1e-12) != set(k for k, v in want_sel.items() if abs(v) > 1e-12) or any(abs(got_sel.get(l_, 0) - v_) > 1e-9 for l_, v_ in want_sel.items()):
+                ctx.fail('PauliPolynomial.__getitem__', 'an index list selects terms that differ from the terms selected one by one', dict(kind=kind, t1=t1, t2=t2, idx=idx_))
+        except Exception as e:
+            ctx.fail('PauliPolynomial.__getitem__', 'implementation raised %r' % e, dict(kind=kind, t1=t1, t2=t2)); continue
+        ctx.case(('poly-parts', kind, str(t1), str(t2)), True, sample=dict(op='parts of a polynomial', kind=kind, terms=L_))
+    # inverse of a monomial: M @ M.inverse() is the identity, for every phase indicator and coefficient
+    for _ in range(ctx.budget(60, 600)):
+        n = rng.choice([1, 2, 3])
+        P = G.rand_op(rng, n)
+        c_ = complex(rng.choice([1, -1, 2, 0.5, -0.25, 3]), rng.choice([0, 0, 1, -0.5, 2]))
+        how = rng.choice(['monomial', 'term of an unreduced product'])
+        try:
+            if how == 'monomial':
+                M_ = pc.PauliMonomial(impl.garr(P[0]), P[1]).set_c(c_)
+            else:
+                Q = G.rand_op(rng, n)
+                M_ = (impl.poly([(P, c_)]) @ impl.poly([(Q, 1.0)]))[0]
+            inv_ = M_.inverse()
+            prod = M_ @ inv_
+            prod2 = inv_ @ M_
+            cm1, cm2 = coefmap(prod.reduce(), impl), coefmap(prod2.reduce(), impl)
+        except Exception as e:
+            ctx.fail('PauliMonomial.inverse', 'implementation raised %r' % e, dict(P=P, c=str(c_), how=how)); continue
+        ident = {tuple('I' * n): 1.0}
+        ctx.case(('mono-inverse', P, c_, how), P[1] % 2 == 1, sample=dict(op='PauliMonomial.inverse', phase=int(M_.p) % 4, how=how))
+        for cm in (cm1, cm2):
+            if set(cm) != set(ident) or abs(cm[tuple('I' * n)] - 1.0) > 1e-9:
+                ctx.fail('PauliMonomial.inverse', 'M @ M.inverse() is not the identity for a monomial with phase indicator %d (%s): got %s' % (int(M_.p) % 4, how, {''.join(k): str(v) for k, v in cm.items()}),
+                         dict(P=P, c=str(c_), how=how)); break
     # histories: objects handed out by the library are changed in place by the caller; later arithmetic must not notice
     for _ in range(ctx.budget(40, 400)):
         n = rng.choice([1, 2, 3])
